@@ -37,6 +37,7 @@ structure PInv (P : Params) (s : St) : Prop where
   lifoRoom : ∀ p, s.pown p = .lifo → s.used p < P.slots
   emptyFull : ∀ p, s.pown p = .empty → s.used p = P.slots
   heldRoom : ∀ a p, s.pown p = .held a → s.used p < P.slots
+  usedLe : ∀ p, s.used p ≤ P.slots
 
 theorem pinv_init (P : Params) : PInv P init := by
   constructor <;> simp [init, heldPage]
@@ -48,6 +49,7 @@ macro "pfin" : tactic => `(tactic| (intros; (try simp only [upd_apply, apply_ite
 theorem pstep_lifo (P : Params) (hP : P.OK) (s : St) (e : Ev) (s' : St) (h : PInv P s) (hs : Step P s e s') : ∀ p, p ∈ s'.pageLifo ↔ s'.pown p = .lifo := by
   have c1 := h.lifo; have c2 := h.lifoNd; have c3 := h.empty; have c4 := h.emptyNd; have c5 := h.held; have c6 := h.rel
   have c7 := h.relNd; have c8 := h.unalloc; have c9 := h.lifoRoom; have c10 := h.emptyFull; have c11 := h.heldRoom
+  have c12 := h.usedLe
   have := hP.slots_pos
   cases hs with
   | @callInit a p1 p2 p3 =>
@@ -166,6 +168,7 @@ theorem pstep_lifo (P : Params) (hP : P.OK) (s : St) (e : Ev) (s' : St) (h : PIn
 theorem pstep_lifoNd (P : Params) (hP : P.OK) (s : St) (e : Ev) (s' : St) (h : PInv P s) (hs : Step P s e s') : s'.pageLifo.Nodup := by
   have c1 := h.lifo; have c2 := h.lifoNd; have c3 := h.empty; have c4 := h.emptyNd; have c5 := h.held; have c6 := h.rel
   have c7 := h.relNd; have c8 := h.unalloc; have c9 := h.lifoRoom; have c10 := h.emptyFull; have c11 := h.heldRoom
+  have c12 := h.usedLe
   have := hP.slots_pos
   cases hs with
   | @callInit a p1 p2 p3 =>
@@ -284,6 +287,7 @@ theorem pstep_lifoNd (P : Params) (hP : P.OK) (s : St) (e : Ev) (s' : St) (h : P
 theorem pstep_empty (P : Params) (hP : P.OK) (s : St) (e : Ev) (s' : St) (h : PInv P s) (hs : Step P s e s') : ∀ p, p ∈ s'.emptyPages ↔ s'.pown p = .empty := by
   have c1 := h.lifo; have c2 := h.lifoNd; have c3 := h.empty; have c4 := h.emptyNd; have c5 := h.held; have c6 := h.rel
   have c7 := h.relNd; have c8 := h.unalloc; have c9 := h.lifoRoom; have c10 := h.emptyFull; have c11 := h.heldRoom
+  have c12 := h.usedLe
   have := hP.slots_pos
   cases hs with
   | @callInit a p1 p2 p3 =>
@@ -402,6 +406,7 @@ theorem pstep_empty (P : Params) (hP : P.OK) (s : St) (e : Ev) (s' : St) (h : PI
 theorem pstep_emptyNd (P : Params) (hP : P.OK) (s : St) (e : Ev) (s' : St) (h : PInv P s) (hs : Step P s e s') : s'.emptyPages.Nodup := by
   have c1 := h.lifo; have c2 := h.lifoNd; have c3 := h.empty; have c4 := h.emptyNd; have c5 := h.held; have c6 := h.rel
   have c7 := h.relNd; have c8 := h.unalloc; have c9 := h.lifoRoom; have c10 := h.emptyFull; have c11 := h.heldRoom
+  have c12 := h.usedLe
   have := hP.slots_pos
   cases hs with
   | @callInit a p1 p2 p3 =>
@@ -520,6 +525,7 @@ theorem pstep_emptyNd (P : Params) (hP : P.OK) (s : St) (e : Ev) (s' : St) (h : 
 theorem pstep_held (P : Params) (hP : P.OK) (s : St) (e : Ev) (s' : St) (h : PInv P s) (hs : Step P s e s') : ∀ a p, heldPage (s'.pc a) = some p ↔ s'.pown p = .held a := by
   have c1 := h.lifo; have c2 := h.lifoNd; have c3 := h.empty; have c4 := h.emptyNd; have c5 := h.held; have c6 := h.rel
   have c7 := h.relNd; have c8 := h.unalloc; have c9 := h.lifoRoom; have c10 := h.emptyFull; have c11 := h.heldRoom
+  have c12 := h.usedLe
   have := hP.slots_pos
   cases hs with
   | @callInit a p1 p2 p3 =>
@@ -638,6 +644,7 @@ theorem pstep_held (P : Params) (hP : P.OK) (s : St) (e : Ev) (s' : St) (h : PIn
 theorem pstep_rel (P : Params) (hP : P.OK) (s : St) (e : Ev) (s' : St) (h : PInv P s) (hs : Step P s e s') : ∀ p, p ∈ s'.released ↔ s'.pown p = .released := by
   have c1 := h.lifo; have c2 := h.lifoNd; have c3 := h.empty; have c4 := h.emptyNd; have c5 := h.held; have c6 := h.rel
   have c7 := h.relNd; have c8 := h.unalloc; have c9 := h.lifoRoom; have c10 := h.emptyFull; have c11 := h.heldRoom
+  have c12 := h.usedLe
   have := hP.slots_pos
   cases hs with
   | @callInit a p1 p2 p3 =>
@@ -756,6 +763,7 @@ theorem pstep_rel (P : Params) (hP : P.OK) (s : St) (e : Ev) (s' : St) (h : PInv
 theorem pstep_relNd (P : Params) (hP : P.OK) (s : St) (e : Ev) (s' : St) (h : PInv P s) (hs : Step P s e s') : s'.released.Nodup := by
   have c1 := h.lifo; have c2 := h.lifoNd; have c3 := h.empty; have c4 := h.emptyNd; have c5 := h.held; have c6 := h.rel
   have c7 := h.relNd; have c8 := h.unalloc; have c9 := h.lifoRoom; have c10 := h.emptyFull; have c11 := h.heldRoom
+  have c12 := h.usedLe
   have := hP.slots_pos
   cases hs with
   | @callInit a p1 p2 p3 =>
@@ -874,6 +882,7 @@ theorem pstep_relNd (P : Params) (hP : P.OK) (s : St) (e : Ev) (s' : St) (h : PI
 theorem pstep_unalloc (P : Params) (hP : P.OK) (s : St) (e : Ev) (s' : St) (h : PInv P s) (hs : Step P s e s') : ∀ p, s'.pown p = .unalloc ↔ s'.npages ≤ p := by
   have c1 := h.lifo; have c2 := h.lifoNd; have c3 := h.empty; have c4 := h.emptyNd; have c5 := h.held; have c6 := h.rel
   have c7 := h.relNd; have c8 := h.unalloc; have c9 := h.lifoRoom; have c10 := h.emptyFull; have c11 := h.heldRoom
+  have c12 := h.usedLe
   have := hP.slots_pos
   cases hs with
   | @callInit a p1 p2 p3 =>
@@ -992,6 +1001,7 @@ theorem pstep_unalloc (P : Params) (hP : P.OK) (s : St) (e : Ev) (s' : St) (h : 
 theorem pstep_lifoRoom (P : Params) (hP : P.OK) (s : St) (e : Ev) (s' : St) (h : PInv P s) (hs : Step P s e s') : ∀ p, s'.pown p = .lifo → s'.used p < P.slots := by
   have c1 := h.lifo; have c2 := h.lifoNd; have c3 := h.empty; have c4 := h.emptyNd; have c5 := h.held; have c6 := h.rel
   have c7 := h.relNd; have c8 := h.unalloc; have c9 := h.lifoRoom; have c10 := h.emptyFull; have c11 := h.heldRoom
+  have c12 := h.usedLe
   have := hP.slots_pos
   cases hs with
   | @callInit a p1 p2 p3 =>
@@ -1110,6 +1120,7 @@ theorem pstep_lifoRoom (P : Params) (hP : P.OK) (s : St) (e : Ev) (s' : St) (h :
 theorem pstep_emptyFull (P : Params) (hP : P.OK) (s : St) (e : Ev) (s' : St) (h : PInv P s) (hs : Step P s e s') : ∀ p, s'.pown p = .empty → s'.used p = P.slots := by
   have c1 := h.lifo; have c2 := h.lifoNd; have c3 := h.empty; have c4 := h.emptyNd; have c5 := h.held; have c6 := h.rel
   have c7 := h.relNd; have c8 := h.unalloc; have c9 := h.lifoRoom; have c10 := h.emptyFull; have c11 := h.heldRoom
+  have c12 := h.usedLe
   have := hP.slots_pos
   cases hs with
   | @callInit a p1 p2 p3 =>
@@ -1228,6 +1239,126 @@ theorem pstep_emptyFull (P : Params) (hP : P.OK) (s : St) (e : Ev) (s' : St) (h 
 theorem pstep_heldRoom (P : Params) (hP : P.OK) (s : St) (e : Ev) (s' : St) (h : PInv P s) (hs : Step P s e s') : ∀ a p, s'.pown p = .held a → s'.used p < P.slots := by
   have c1 := h.lifo; have c2 := h.lifoNd; have c3 := h.empty; have c4 := h.emptyNd; have c5 := h.held; have c6 := h.rel
   have c7 := h.relNd; have c8 := h.unalloc; have c9 := h.lifoRoom; have c10 := h.emptyFull; have c11 := h.heldRoom
+  have c12 := h.usedLe
+  have := hP.slots_pos
+  cases hs with
+  | @callInit a p1 p2 p3 =>
+    have kh := c5 a; rw [p2] at kh; simp only [hp_idle, hp_take, hp_carving, hp_needPage, hp_havePage, hp_got, hp_takeFailed, hp_retPart, hp_partPush, hp_partUnlock, hp_freeRet, hp_destroying, hp_doneAlloc, hp_doneFree, hp_doneDestroy, reduceCtorEq, false_iff, Option.some.injEq] at kh
+    first | assumption | pfin
+  | @retInitOk a b p1 p2 =>
+    have kh := c5 a; rw [p1] at kh; simp only [hp_idle, hp_take, hp_carving, hp_needPage, hp_havePage, hp_got, hp_takeFailed, hp_retPart, hp_partPush, hp_partUnlock, hp_freeRet, hp_destroying, hp_doneAlloc, hp_doneFree, hp_doneDestroy, reduceCtorEq, false_iff, Option.some.injEq] at kh
+    first | assumption | pfin
+  | @retInitFail a p1 =>
+    have kh := c5 a; rw [p1] at kh; simp only [hp_idle, hp_take, hp_carving, hp_needPage, hp_havePage, hp_got, hp_takeFailed, hp_retPart, hp_partPush, hp_partUnlock, hp_freeRet, hp_destroying, hp_doneAlloc, hp_doneFree, hp_doneDestroy, reduceCtorEq, false_iff, Option.some.injEq] at kh
+    first | assumption | pfin
+  | @callAllocPop a f x x2 c p1 p2 p3 =>
+    have kh := c5 a; rw [p2] at kh; simp only [hp_idle, hp_take, hp_carving, hp_needPage, hp_havePage, hp_got, hp_takeFailed, hp_retPart, hp_partPush, hp_partUnlock, hp_freeRet, hp_destroying, hp_doneAlloc, hp_doneFree, hp_doneDestroy, reduceCtorEq, false_iff, Option.some.injEq] at kh
+    first | assumption | pfin
+  | @callAllocPrev a f b x p1 p2 p3 =>
+    have kh := c5 a; rw [p2] at kh; simp only [hp_idle, hp_take, hp_carving, hp_needPage, hp_havePage, hp_got, hp_takeFailed, hp_retPart, hp_partPush, hp_partUnlock, hp_freeRet, hp_destroying, hp_doneAlloc, hp_doneFree, hp_doneDestroy, reduceCtorEq, false_iff, Option.some.injEq] at kh
+    first | assumption | pfin
+  | @callAllocTake a x p1 p2 p3 =>
+    have kh := c5 a; rw [p2] at kh; simp only [hp_idle, hp_take, hp_carving, hp_needPage, hp_havePage, hp_got, hp_takeFailed, hp_retPart, hp_partPush, hp_partUnlock, hp_freeRet, hp_destroying, hp_doneAlloc, hp_doneFree, hp_doneDestroy, reduceCtorEq, false_iff, Option.some.injEq] at kh
+    first | assumption | pfin
+  | @retAllocTake a b x p1 p2 =>
+    have kh := c5 a; rw [p1] at kh; simp only [hp_idle, hp_take, hp_carving, hp_needPage, hp_havePage, hp_got, hp_takeFailed, hp_retPart, hp_partPush, hp_partUnlock, hp_freeRet, hp_destroying, hp_doneAlloc, hp_doneFree, hp_doneDestroy, reduceCtorEq, false_iff, Option.some.injEq] at kh
+    first | assumption | pfin
+  | @retAllocFail a p1 =>
+    have kh := c5 a; rw [p1] at kh; simp only [hp_idle, hp_take, hp_carving, hp_needPage, hp_havePage, hp_got, hp_takeFailed, hp_retPart, hp_partPush, hp_partUnlock, hp_freeRet, hp_destroying, hp_doneAlloc, hp_doneFree, hp_doneDestroy, reduceCtorEq, false_iff, Option.some.injEq] at kh
+    first | assumption | pfin
+  | @retAllocDone a x p1 =>
+    have kh := c5 a; rw [p1] at kh; simp only [hp_idle, hp_take, hp_carving, hp_needPage, hp_havePage, hp_got, hp_takeFailed, hp_retPart, hp_partPush, hp_partUnlock, hp_freeRet, hp_destroying, hp_doneAlloc, hp_doneFree, hp_doneDestroy, reduceCtorEq, false_iff, Option.some.injEq] at kh
+    first | assumption | pfin
+  | @popBucketSome a pu b rest p1 p2 =>
+    have kh := c5 a; rw [p1] at kh; simp only [hp_idle, hp_take, hp_carving, hp_needPage, hp_havePage, hp_got, hp_takeFailed, hp_retPart, hp_partPush, hp_partUnlock, hp_freeRet, hp_destroying, hp_doneAlloc, hp_doneFree, hp_doneDestroy, reduceCtorEq, false_iff, Option.some.injEq] at kh
+    first | assumption | pfin
+  | @popBucketNone a pu p1 p2 =>
+    have kh := c5 a; rw [p1] at kh; simp only [hp_idle, hp_take, hp_carving, hp_needPage, hp_havePage, hp_got, hp_takeFailed, hp_retPart, hp_partPush, hp_partUnlock, hp_freeRet, hp_destroying, hp_doneAlloc, hp_doneFree, hp_doneDestroy, reduceCtorEq, false_iff, Option.some.injEq] at kh
+    first | assumption | pfin
+  | @popPageSome a pu acc p rest p1 p2 =>
+    have kh := c5 a; rw [p1] at kh; simp only [hp_idle, hp_take, hp_carving, hp_needPage, hp_havePage, hp_got, hp_takeFailed, hp_retPart, hp_partPush, hp_partUnlock, hp_freeRet, hp_destroying, hp_doneAlloc, hp_doneFree, hp_doneDestroy, reduceCtorEq, false_iff, Option.some.injEq] at kh
+    have kp := c1 p; rw [p2] at kp; simp only [List.mem_cons, true_or, true_iff] at kp
+    have kn := c2; rw [p2] at kn; simp only [List.nodup_cons] at kn
+    first | assumption | pfin
+  | @popPageNone a pu acc p1 p2 =>
+    have kh := c5 a; rw [p1] at kh; simp only [hp_idle, hp_take, hp_carving, hp_needPage, hp_havePage, hp_got, hp_takeFailed, hp_retPart, hp_partPush, hp_partUnlock, hp_freeRet, hp_destroying, hp_doneAlloc, hp_doneFree, hp_doneDestroy, reduceCtorEq, false_iff, Option.some.injEq] at kh
+    first | assumption | pfin
+  | @allocOk a pu acc p1 =>
+    have kh := c5 a; rw [p1] at kh; simp only [hp_idle, hp_take, hp_carving, hp_needPage, hp_havePage, hp_got, hp_takeFailed, hp_retPart, hp_partPush, hp_partUnlock, hp_freeRet, hp_destroying, hp_doneAlloc, hp_doneFree, hp_doneDestroy, reduceCtorEq, false_iff, Option.some.injEq] at kh
+    first | assumption | pfin
+  | @allocFailEmpty a pu p1 =>
+    have kh := c5 a; rw [p1] at kh; simp only [hp_idle, hp_take, hp_carving, hp_needPage, hp_havePage, hp_got, hp_takeFailed, hp_retPart, hp_partPush, hp_partUnlock, hp_freeRet, hp_destroying, hp_doneAlloc, hp_doneFree, hp_doneDestroy, reduceCtorEq, false_iff, Option.some.injEq] at kh
+    first | assumption | pfin
+  | @allocFailPart a pu x acc p1 =>
+    have kh := c5 a; rw [p1] at kh; simp only [hp_idle, hp_take, hp_carving, hp_needPage, hp_havePage, hp_got, hp_takeFailed, hp_retPart, hp_partPush, hp_partUnlock, hp_freeRet, hp_destroying, hp_doneAlloc, hp_doneFree, hp_doneDestroy, reduceCtorEq, false_iff, Option.some.injEq] at kh
+    first | assumption | pfin
+  | @carveLifo a pu acc p p1 p2 p3 =>
+    have kh := c5 a; rw [p1] at kh; simp only [hp_idle, hp_take, hp_carving, hp_needPage, hp_havePage, hp_got, hp_takeFailed, hp_retPart, hp_partPush, hp_partUnlock, hp_freeRet, hp_destroying, hp_doneAlloc, hp_doneFree, hp_doneDestroy, reduceCtorEq, false_iff, Option.some.injEq] at kh
+    first | assumption | pfin
+  | @carveEmpty a pu acc p p1 p2 p3 =>
+    have kh := c5 a; rw [p1] at kh; simp only [hp_idle, hp_take, hp_carving, hp_needPage, hp_havePage, hp_got, hp_takeFailed, hp_retPart, hp_partPush, hp_partUnlock, hp_freeRet, hp_destroying, hp_doneAlloc, hp_doneFree, hp_doneDestroy, reduceCtorEq, false_iff, Option.some.injEq] at kh
+    first | assumption | pfin
+  | @lockPartEmpty a k b p1 p2 p3 =>
+    have kh := c5 a; rw [p1] at kh; simp only [hp_idle, hp_take, hp_carving, hp_needPage, hp_havePage, hp_got, hp_takeFailed, hp_retPart, hp_partPush, hp_partUnlock, hp_freeRet, hp_destroying, hp_doneAlloc, hp_doneFree, hp_doneDestroy, reduceCtorEq, false_iff, Option.some.injEq] at kh
+    first | assumption | pfin
+  | @lockPartSmall a k b p1 p2 p3 p4 =>
+    have kh := c5 a; rw [p1] at kh; simp only [hp_idle, hp_take, hp_carving, hp_needPage, hp_havePage, hp_got, hp_takeFailed, hp_retPart, hp_partPush, hp_partUnlock, hp_freeRet, hp_destroying, hp_doneAlloc, hp_doneFree, hp_doneDestroy, reduceCtorEq, false_iff, Option.some.injEq] at kh
+    first | assumption | pfin
+  | @lockPartFull a k b p1 p2 p3 p4 =>
+    have kh := c5 a; rw [p1] at kh; simp only [hp_idle, hp_take, hp_carving, hp_needPage, hp_havePage, hp_got, hp_takeFailed, hp_retPart, hp_partPush, hp_partUnlock, hp_freeRet, hp_destroying, hp_doneAlloc, hp_doneFree, hp_doneDestroy, reduceCtorEq, false_iff, Option.some.injEq] at kh
+    first | assumption | pfin
+  | @pushBucketPart a k b p1 =>
+    have kh := c5 a; rw [p1] at kh; simp only [hp_idle, hp_take, hp_carving, hp_needPage, hp_havePage, hp_got, hp_takeFailed, hp_retPart, hp_partPush, hp_partUnlock, hp_freeRet, hp_destroying, hp_doneAlloc, hp_doneFree, hp_doneDestroy, reduceCtorEq, false_iff, Option.some.injEq] at kh
+    first | assumption | pfin
+  | @unlockPart a k p1 =>
+    have kh := c5 a; rw [p1] at kh; simp only [hp_idle, hp_take, hp_carving, hp_needPage, hp_havePage, hp_got, hp_takeFailed, hp_retPart, hp_partPush, hp_partUnlock, hp_freeRet, hp_destroying, hp_doneAlloc, hp_doneFree, hp_doneDestroy, reduceCtorEq, false_iff, Option.some.injEq] at kh
+    first | assumption | pfin
+  | @callFreePush a x f c p1 p2 p3 p4 p5 =>
+    have kh := c5 a; rw [p2] at kh; simp only [hp_idle, hp_take, hp_carving, hp_needPage, hp_havePage, hp_got, hp_takeFailed, hp_retPart, hp_partPush, hp_partUnlock, hp_freeRet, hp_destroying, hp_doneAlloc, hp_doneFree, hp_doneDestroy, reduceCtorEq, false_iff, Option.some.injEq] at kh
+    first | assumption | pfin
+  | @callFreeNew a x f c p1 p2 p3 p4 p5 p6 =>
+    have kh := c5 a; rw [p2] at kh; simp only [hp_idle, hp_take, hp_carving, hp_needPage, hp_havePage, hp_got, hp_takeFailed, hp_retPart, hp_partPush, hp_partUnlock, hp_freeRet, hp_destroying, hp_doneAlloc, hp_doneFree, hp_doneDestroy, reduceCtorEq, false_iff, Option.some.injEq] at kh
+    first | assumption | pfin
+  | @callFreeRet a x f c b0 rest p1 p2 p3 p4 p5 p6 p7 =>
+    have kh := c5 a; rw [p2] at kh; simp only [hp_idle, hp_take, hp_carving, hp_needPage, hp_havePage, hp_got, hp_takeFailed, hp_retPart, hp_partPush, hp_partUnlock, hp_freeRet, hp_destroying, hp_doneAlloc, hp_doneFree, hp_doneDestroy, reduceCtorEq, false_iff, Option.some.injEq] at kh
+    first | assumption | pfin
+  | @pushBucketFree a b p1 =>
+    have kh := c5 a; rw [p1] at kh; simp only [hp_idle, hp_take, hp_carving, hp_needPage, hp_havePage, hp_got, hp_takeFailed, hp_retPart, hp_partPush, hp_partUnlock, hp_freeRet, hp_destroying, hp_doneAlloc, hp_doneFree, hp_doneDestroy, reduceCtorEq, false_iff, Option.some.injEq] at kh
+    first | assumption | pfin
+  | @retFree a p1 =>
+    have kh := c5 a; rw [p1] at kh; simp only [hp_idle, hp_take, hp_carving, hp_needPage, hp_havePage, hp_got, hp_takeFailed, hp_retPart, hp_partPush, hp_partUnlock, hp_freeRet, hp_destroying, hp_doneAlloc, hp_doneFree, hp_doneDestroy, reduceCtorEq, false_iff, Option.some.injEq] at kh
+    first | assumption | pfin
+  | @callDestroy a f c p1 p2 p3 =>
+    have kh := c5 a; rw [p2] at kh; simp only [hp_idle, hp_take, hp_carving, hp_needPage, hp_havePage, hp_got, hp_takeFailed, hp_retPart, hp_partPush, hp_partUnlock, hp_freeRet, hp_destroying, hp_doneAlloc, hp_doneFree, hp_doneDestroy, reduceCtorEq, false_iff, Option.some.injEq] at kh
+    first | assumption | pfin
+  | @pushBucketDestroy a b f c p1 =>
+    have kh := c5 a; rw [p1] at kh; simp only [hp_idle, hp_take, hp_carving, hp_needPage, hp_havePage, hp_got, hp_takeFailed, hp_retPart, hp_partPush, hp_partUnlock, hp_freeRet, hp_destroying, hp_doneAlloc, hp_doneFree, hp_doneDestroy, reduceCtorEq, false_iff, Option.some.injEq] at kh
+    first | assumption | pfin
+  | @pushBucketLast a c p1 =>
+    have kh := c5 a; rw [p1] at kh; simp only [hp_idle, hp_take, hp_carving, hp_needPage, hp_havePage, hp_got, hp_takeFailed, hp_retPart, hp_partPush, hp_partUnlock, hp_freeRet, hp_destroying, hp_doneAlloc, hp_doneFree, hp_doneDestroy, reduceCtorEq, false_iff, Option.some.injEq] at kh
+    first | assumption | pfin
+  | @retDestroy a p1 =>
+    have kh := c5 a; rw [p1] at kh; simp only [hp_idle, hp_take, hp_carving, hp_needPage, hp_havePage, hp_got, hp_takeFailed, hp_retPart, hp_partPush, hp_partUnlock, hp_freeRet, hp_destroying, hp_doneAlloc, hp_doneFree, hp_doneDestroy, reduceCtorEq, false_iff, Option.some.injEq] at kh
+    first | assumption | pfin
+  | @destroyStart  p1 p2 p3 =>
+    first | assumption | pfin
+  | @relLifo p rest p1 p2 =>
+    have kp := c1 p; rw [p2] at kp; simp only [List.mem_cons, true_or, true_iff] at kp
+    have kn := c2; rw [p2] at kn; simp only [List.nodup_cons] at kn
+    first | assumption | pfin
+  | @lifoEmpty  p1 p2 =>
+    first | assumption | pfin
+  | @relEmpty p rest p1 p2 =>
+    have kp := c3 p; rw [p2] at kp; simp only [List.mem_cons, true_or, true_iff] at kp
+    have kn := c4; rw [p2] at kn; simp only [List.nodup_cons] at kn
+    first | assumption | pfin
+  | @destroyEnd  p1 p2 =>
+    first | assumption | pfin
+
+theorem pstep_usedLe (P : Params) (hP : P.OK) (s : St) (e : Ev) (s' : St) (h : PInv P s) (hs : Step P s e s') : ∀ p, s'.used p ≤ P.slots := by
+  have c1 := h.lifo; have c2 := h.lifoNd; have c3 := h.empty; have c4 := h.emptyNd; have c5 := h.held; have c6 := h.rel
+  have c7 := h.relNd; have c8 := h.unalloc; have c9 := h.lifoRoom; have c10 := h.emptyFull; have c11 := h.heldRoom
+  have c12 := h.usedLe
   have := hP.slots_pos
   cases hs with
   | @callInit a p1 p2 p3 =>
@@ -1346,6 +1477,7 @@ theorem pstep_heldRoom (P : Params) (hP : P.OK) (s : St) (e : Ev) (s' : St) (h :
 theorem pinv_step (P : Params) (hP : P.OK) (s : St) (e : Ev) (s' : St) (h : PInv P s) (hs : Step P s e s') : PInv P s' :=
   ⟨pstep_lifo P hP s e s' h hs, pstep_lifoNd P hP s e s' h hs, pstep_empty P hP s e s' h hs, pstep_emptyNd P hP s e s' h hs,
    pstep_held P hP s e s' h hs, pstep_rel P hP s e s' h hs, pstep_relNd P hP s e s' h hs, pstep_unalloc P hP s e s' h hs,
-   pstep_lifoRoom P hP s e s' h hs, pstep_emptyFull P hP s e s' h hs, pstep_heldRoom P hP s e s' h hs⟩
+   pstep_lifoRoom P hP s e s' h hs, pstep_emptyFull P hP s e s' h hs, pstep_heldRoom P hP s e s' h hs,
+   pstep_usedLe P hP s e s' h hs⟩
 
 end ArgoVerif.Model.MemPoolConc
